@@ -497,6 +497,9 @@ def run(ctx):
                 why8 = "iterates %s%s%s" % (sorted(cal), (", dropping elements through %s" % lossy) if lossy else "", (", collecting them into %s (Edge's Eq/Ord compare the endpoints only, so parallel edges collapse)" % sets) if sets else "")
     ctx.require(ok8, "V8", "edge-per-edge", "<edge> elements are written by iterating get_all_edges() one to one", "the writer's <edge> loop %s: the document has fewer <edge> elements than the graph has edges" % why8, loc_str(wb.span))
 
+    from graphrules import no_edge_identity_collections
+
+    no_edge_identity_collections(ctx, prog, "V9", ("readwrite::",), "the document has fewer <edge> elements than the graph has edges (or the graph fewer edges than the document)")
     # ------------------------------------------------------------------ V6 file = string
     ctx.rule("V6", "file variants wrap the string variants with file I/O only")
     wfile = prog.one("graphml::write_graphml_file")
@@ -508,6 +511,15 @@ def run(ctx):
         cal = {wfile.blocks[n_[1]].term.callee.short for n_ in sl if n_[0] == "CALL" and wfile.blocks[n_[1]].term.callee}
         ok6 = any(c.endswith("graphml::write_graphml_string") for c in cal) and all(c.split("::")[-1] in ("write_graphml_string", "branch", "as_bytes", "deref") for c in cal)
     ctx.require(ok6, "V6", "write-file", "write_graphml_file writes exactly write_graphml_string's bytes", "write_graphml_file transforms the document before writing", loc_str(wfile.span))
+    # the destination holds the document and nothing else: it is opened by a call that truncates (File::create,
+    # fs::write) or by OpenOptions with truncate(true) -- write(true).create(true) alone leaves the tail of a longer old file
+    wbodies = [wfile] + prog.closures_of(wfile.path)
+    opens = [t for b_ in wbodies for t in b_.calls() if t.callee and (t.callee.short.endswith("File::create") or t.callee.short.endswith("fs::write") or t.callee.short.endswith("OpenOptions::open") or t.callee.short.endswith("File::options") or t.callee.short.endswith("File::create_new"))]
+    oo = [t for b_ in wbodies for t in b_.calls() if t.callee and t.callee.short.endswith("OpenOptions::open")]
+    trunc = [t for b_ in wbodies for t in b_.calls() if t.callee and t.callee.short.endswith("OpenOptions::truncate") and len(t.args) > 1 and t.args[1].is_const() and t.args[1].const_int() == 1]
+    app = [t for b_ in wbodies for t in b_.calls() if t.callee and t.callee.short.endswith("OpenOptions::append")]
+    ok6t = bool(opens) and (not oo or (bool(trunc) and not app))
+    ctx.require(ok6t, "V6", "write-file-truncates", "the destination file is created / truncated before the document is written", "write_graphml_file opens its destination without truncating it (OpenOptions without truncate(true)%s): when the path already holds a longer file, its tail stays behind the new document and the file no longer equals write_graphml_string's output" % (", with append" if app else ""), loc_str((oo or opens or [wfile])[0].span))
     rfile = prog.one("graphml::read_graphml_file")
     rff = flows.of(rfile)
     rc = [t for t in rfile.calls() if t.callee and t.callee.short.endswith("graphml::read_graphml_string")]
